@@ -84,7 +84,50 @@ theorem answers_eq_advertisements (t : DevTree) (st : Str) (h : lower st = ssdpA
   refine List.Perm.append ?_ (List.Perm.refl _)
   exact perm_map_map_flatMap respUdn (respDevType none) (allDevices t)
 
-/-- **every USN begins with the UDN of the device it describes** (table entries; by
+/-- **every USN begins with the UDN of the device it describes** — for EVERY tree (no domain
+    hypothesis), every target and either option setting: each entry of the table (and hence, by
+    `target_dispatch` / `answers_eq_advertisements` / `advertisements_eq`, each emitted message) has
+    USN = UDN or UDN `::` type, of the device it describes (owning device for a service) -/
+theorem usn_prefix_all (t : DevTree) (ar : Bool) (st : Str) :
+    (∀ e ∈ expAll t, startsWith e.usn e.dev = true) ∧
+    (∀ e ∈ (expected t ar st).1, startsWith e.usn e.dev = true) ∧
+    (∀ m ∈ advertisements t, ∃ e ∈ expAll t, m = toMsg e ∧ startsWith m.usn e.dev = true) := by
+  have hall : ∀ e ∈ expAll t, startsWith e.usn e.dev = true := by
+    intro e he
+    simp only [expAll, List.mem_cons, List.mem_append, List.mem_flatMap, List.mem_map,
+      List.not_mem_nil, or_false] at he
+    rcases he with rfl | ⟨d, _, rfl | rfl⟩ | ⟨s, _, rfl⟩
+    · simp only [expRoot, List.append_assoc]; exact startsWith_append _ _
+    · exact startsWith_self _
+    · simp only [expDevType, List.append_assoc]; exact startsWith_append _ _
+    · simp only [expSvc, List.append_assoc]; exact startsWith_append _ _
+  refine ⟨hall, ?_, ?_⟩
+  · intro e he
+    simp only [expected, List.mem_append] at he
+    rcases he with he | he
+    · unfold expectedBase at he
+      simp only at he
+      split at he
+      · exact hall e he
+      · split at he
+        · simp only [List.mem_singleton] at he; subst he
+          simp only [expRoot, List.append_assoc]; exact startsWith_append _ _
+        · simp only [List.mem_append, List.mem_map, List.mem_filter] at he
+          rcases he with (⟨d, _, rfl⟩ | ⟨d, _, rfl⟩) | ⟨s, _, rfl⟩
+          · exact startsWith_self _
+          · simp only [expDevType, List.append_assoc]; exact startsWith_append _ _
+          · simp only [expSvc, List.append_assoc]; exact startsWith_append _ _
+    · cases ar with
+      | false => simp at he
+      | true =>
+        simp only [if_true, List.mem_singleton] at he; subst he
+        simp only [expRoot, List.append_assoc]; exact startsWith_append _ _
+  · intro m hm
+    rw [advertisements_eq] at hm
+    obtain ⟨e, he, rfl⟩ := List.mem_map.mp hm
+    exact ⟨e, he, rfl, hall e he⟩
+
+/-- … and, on well-formed trees, the library's `udn_from_usn` recovers exactly that UDN (table entries; by
     `target_dispatch` / `answers_eq_advertisements` these are the USNs of every emitted message),
     and the library's `udn_from_usn` recovers exactly that UDN -/
 theorem usn_begins_with_udn {t : DevTree} (hw : wfTree t = true) (ar : Bool) (st : Str) :
@@ -115,6 +158,13 @@ theorem target_dispatch {t : DevTree} (hw : wfTree t = true) (ar : Bool) (st : S
     ((buildResponses t ar st).map (msgKey (expected t ar st).2)).Perm
       ((expected t ar st).1.map (expKey (expected t ar st).2)) :=
   dispatch_perm (WF.of_wfTree hw) ar st
+
+/-- **`upnp:rootdevice`** (any letter case) is answered with exactly the root message — for every
+    tree, no hypothesis; with the always-root option the root message comes twice -/
+theorem rootdevice_exact (t : DevTree) (ar : Bool) (st : Str) (h : lower st = rootDevice) :
+    buildResponses t ar st = respRoot t :: (if ar then [respRoot t] else []) := by
+  have h2 : rootDevice ≠ ssdpAll := by decide
+  cases ar <;> simp [buildResponses, h, h2]
 
 /-- … in particular (option off) `upnp:rootdevice` gets exactly the root message, a target for
     which the table is empty (foreign UUID, foreign or too-high type version, malformed) gets
@@ -252,6 +302,17 @@ theorem listener_accepts {t : DevTree} (hw : wfTree t = true) (c : Cfg) (hl : va
     obtain ⟨e, he, rfl⟩ := List.mem_map.mp hm
     have heok := expAll_ok w e he
     exact ⟨e, he, rfl, hearAlive_ok heok c rfl heok.st hl, hearByebye_ok heok c rfl heok.st hl⟩
+
+/-- **listener refuses** — the other half of the dichotomy on the description URL: when the
+    listener's own `is_usable_location` refuses `baseUri ++ deviceUrl` (`localhost`, loopback,
+    IPv4 link-local, a scheme other than http(s), an unparsable host), EVERY message the server can
+    emit (any ST/NT, any USN — no hypothesis on tree or message) is ignored by the listener model:
+    no callback, nothing stored, for search answers, `ssdp:alive` and `ssdp:byebye` alike.  Together
+    with `listener_accepts` clause 12 is decided for every description URL: "accepted as that device
+    at the description URL" holds exactly when the listener accepts that URL at all. -/
+theorem listener_refuses (c : Cfg) (m : Msg) (hv : validLocation c.location = false) :
+    hearResponse c m = Heard.no ∧ hearAlive c m = Heard.no ∧ hearByebye c m = Heard.no :=
+  hear_refused c m hv
 
 /-! ### the wire -/
 
